@@ -171,12 +171,47 @@ Theorem C05_unordered_any_key : forall hk k,
 Proof. exact (unordered_any_key gen_max_key_len). Qed.
 Print Assumptions C05_unordered_any_key.
 
+(** The two panic sites of the memory walk (slice bounds in partialKeys, nil
+    entry in walkKeys) are unreachable whenever offset + limit does not wrap
+    around uint64 - in particular on the whole range of the statement, offsets
+    and limits up to 2^63 - 1 ([bop_okb]) ... *)
 Theorem C05_mem_never_panics : forall t o,
-  nodupk t -> bop_okb o = true ->
+  nodupk t -> bop_nowrapb o = true ->
   (forall k f c v, o = BMutate k f -> lookup k t = Some (c, v) -> f v <> MFail EPanic) ->
   snd (mem_step t o) <> RErr EPanic.
-Proof. exact mem_never_panics. Qed.
+Proof. exact mem_never_panics_nowrap. Qed.
 Print Assumptions C05_mem_never_panics.
+
+Theorem C05_statement_range_no_wrap : forall o, bop_okb o = true -> bop_nowrapb o = true.
+Proof. exact bop_ok_nowrap. Qed.
+Print Assumptions C05_statement_range_no_wrap.
+
+(** ... and for uint64 values outside it the code does panic, exactly when
+    the wrapped end index falls below the start index. *)
+Theorem C05_mem_partial_panics_exactly : forall t off n desc f,
+  off < two64 -> n < two64 -> nodupk t ->
+  (snd (mem_step t (BWalkPartial off n desc f)) = RErr EPanic <->
+   two64 <= off + n /\ N.min (off + n - two64) (lenN t) < N.min off (lenN t)).
+Proof. exact mem_partial_panics_exactly. Qed.
+Print Assumptions C05_mem_partial_panics_exactly.
+
+Theorem C05_partial_keys_uint64 : forall off n ks,
+  off < two64 -> n < two64 ->
+  partial_keys off n ks =
+  if off + n <? two64 then Some (window off n ks)
+  else if N.min (off + n - two64) (lenN ks) <? N.min off (lenN ks) then None else Some [].
+Proof.
+  exact (fun off n ks Ho Hn =>
+    match N.ltb_spec (off + n) two64 as r in BoolSpec _ _ b
+      return partial_keys off n ks =
+             if b then Some (window off n ks)
+             else if N.min (off + n - two64) (lenN ks) <? N.min off (lenN ks) then None else Some []
+    with
+    | BoolSpecT _ H => partial_keys_nowrap off n ks H
+    | BoolSpecF _ H => partial_keys_wrap off n ks Ho Hn H
+    end).
+Qed.
+Print Assumptions C05_partial_keys_uint64.
 
 (** ** The source is the deployed one *)
 Theorem C05_source_frozen :
@@ -221,6 +256,21 @@ Example C05_legacy_replace_refuted :
   forallb bop_okb ops = true /\
   snd (run mem_step_legacy [] ops) <> snd (run spec_step [] ops).
 Proof. split; [reflexivity|vm_compute; discriminate]. Qed.
+
+(** window edges: at the top of the statement's range nothing wraps (and
+    nothing is visited); [Offset: 1, N: MaxUint64] wraps and panics on the
+    memory backend, and is refused by sqlite ("datatype mismatch") *)
+Example C05_window_edges :
+  let t := [([97], ([], [49])); ([98], ([], [50])); ([99], ([], [51]))] in
+  let top := two63 - 1 in
+  snd (mem_step t (BWalkPartial top top false always_ok)) = RWalk [] None /\
+  snd (mem_step t (BWalkPartial 2 top true always_ok)) = RWalk [([], [49])] None /\
+  snd (mem_step t (BWalkPartial 1 (two64 - 1) false always_ok)) = RErr EPanic /\
+  snd (mem_step t (BWalkPartial 0 (two64 - 1) false always_ok))
+  = RWalk [([], [49]); ([], [50]); ([], [51])] None /\
+  snd (sql_step gen_sqlite_methods t (BWalkPartial 1 (two64 - 1) false always_ok)) = RErr EOther /\
+  snd (sql_step gen_sqlite_methods t (BWalkPartial two63 0 false always_ok)) = RWalk [] None.
+Proof. vm_compute. repeat split. Qed.
 
 (** the key-length limit is met with equality at 255 and exceeded at 256 *)
 Example C05_nonvacuous_keys :
